@@ -195,13 +195,20 @@ def observe(root, nodes):
         return int(v)
 
     obs['props'] = [intval('n_nodes'), intval('n_leaves'), intval('min_depth'), intval('max_depth')]
+    kept = {}
     for name in ('pre_order', 'post_order'):
         try:
-            lst = getattr(root, name)
-            obs[name] = [ix(n) for n in lst]
+            kept[name] = getattr(root, name)
         except Exception as ex:  # noqa: BLE001
             problems.append('%s raised %s' % (name, type(ex).__name__))
-            obs[name] = None
+            kept[name] = None
+    # the lists are READ only after every other traversal below (of the sub-trees, of find_node): a traversal handed out earlier stays
+    # that traversal, whatever is traversed next
+    for n in nodes[1:4]:
+        try:
+            n.pre_order, n.post_order
+        except Exception:  # noqa: BLE001
+            pass
     obs['heap'] = [[i, None if n.parent is None else ix(n.parent), bool(n.flag)] for i, n in enumerate(nodes)]
     finds = []
     for p in range(0, len(nodes) + 2):
@@ -217,6 +224,12 @@ def observe(root, nodes):
         except Exception as ex:  # noqa: BLE001
             finds.append({'other': 'raised ' + type(ex).__name__})
     obs['find'] = finds
+    for name in ('pre_order', 'post_order'):
+        try:
+            obs[name] = None if kept[name] is None else [ix(n) for n in kept[name]]
+        except Exception as ex:  # noqa: BLE001
+            problems.append('%s: the list returned earlier no longer holds nodes of the tree (%s)' % (name, type(ex).__name__))
+            obs[name] = None
     obs['problems'] = problems
     return obs
 
